@@ -68,7 +68,7 @@ theorem resRel_refl {α : Type _} (lib : Lib) (h : NNet) (w : WF h) (z : α) (ne
 theorem resRel_step {α : Type _} {lib : Lib} {h : NNet} {z : α} {neg : α → α} {prim : String → α → α → α → α → α}
     {cur : NNet} {D : Nat → Prop} (r : ResRel lib h z neg prim cur D) (hw : WF h) (d : Nat) (hd : d < h.net.nodes.size) (hnd : ¬ D d)
     (impl : NNet) (hfind : lib.find (h.net.node d).kind = some impl)
-    (sh : Shape) (dn : Nat) (map : Array (Option Nat)) (nxt : NNet) (ct : SubstCert cur d impl sh dn map nxt) :
+    (sh : Shape) (dn : Nat) (map : Array (Option Nat)) (nxt : NNet) (ct : SubstCertD cur d impl sh dn map nxt) :
     ResRel lib h z neg prim nxt (fun x => D x ∨ x = d) := by
   have hnode := r.node d hd hnd
   refine ⟨ct.wf', Nat.le_trans r.nsize ct.nsize, ?_, ct.io'.trans r.io, ?_, ?_, ?_, ?_, ?_⟩
